@@ -291,7 +291,7 @@ func (c *Checker) finish(verifDir string, meta runMeta, seed int, start time.Tim
 	var samples []Obligation
 	cnt := map[string]int{}
 	for _, o := range c.Obls {
-		lim := 3
+		lim := 8
 		if o.Verdict != vOK {
 			lim = 50
 		}
